@@ -288,7 +288,10 @@ def signature_of(problem):
 
 
 def run_cases(cases, timeout=900):
-    return common.run_batch("hook", cases, timeout=timeout)
+    # a compile takes microseconds and a case is at most a few hundred of them: a short watchdog, a low cap on dying cases
+    # (a tree on which a dozen inputs hang the compiler is decided) and no second opinion here - handle_abort() re-runs the
+    # dying input alone anyway
+    return common.run_batch("hook", cases, timeout=timeout, case_timeout=12, abort_cap=12, retry_timeouts=False)
 
 
 def handle_abort(ck, case, res, sources):
@@ -312,11 +315,11 @@ def handle_abort(ck, case, res, sources):
     else:
         singles = [s[1] for s in case["steps"]]
     sub = [mk_case("%s#%d" % (cid, i), [("compile", s)], {"gc": "never"}) for i, s in enumerate(singles)]
-    out = common.run_batch("hook", sub, timeout=120)
+    out = common.run_batch("hook", sub, timeout=120, case_timeout=8, abort_cap=6, retry_timeouts=False)
     found = False
     for c, r in zip(sub, out):
         if "abort" in r and r["abort"].get("why") != "not-run":
-            again = common.confirm_abort("hook", c, timeout=300)
+            again = [common.run_batch("hook", [c], shards=1, timeout=300, case_timeout=30, retry_timeouts=False)[0] for _ in range(2)]
             if all("abort" in a for a in again):
                 found = True
                 why = r["abort"]["why"]
